@@ -16,7 +16,11 @@ class Unsupported(Exception):
     pass
 
 
+# variables owned by the interpreter: never assigned by a modelled flow
 RESERVED_VARS = {"event", "config", "last_user_message", "last_bot_message"}
+# objects whose attribute / constant-key paths are flattened to dotted variable names (`$config.rails.input.flows`
+# -> variable "config.rails.input.flows"); the model's context holds the flat entries
+OBJECT_VARS = {"event", "config", "generation_options"}
 _CMP = {ast.Eq: "eq", ast.NotEq: "ne", ast.Lt: "lt", ast.LtE: "le", ast.Gt: "gt", ast.GtE: "ge"}
 
 
@@ -27,6 +31,8 @@ def val_to_model(v):
         return {"i": v}
     if isinstance(v, str):
         return {"s": v}
+    if isinstance(v, (list, tuple)) and all(isinstance(x, str) for x in v):
+        return {"L": list(v)}
     raise Unsupported(f"value {type(v).__name__}")
 
 
@@ -35,7 +41,22 @@ def val_from_model(j):
         return j
     if "i" in j:
         return j["i"]
+    if "L" in j:
+        return list(j["L"])
     return j["s"]
+
+
+def _path(node):
+    """dotted path of an attribute / constant-string-subscript chain rooted at one of OBJECT_VARS, else None"""
+    if isinstance(node, ast.Name) and node.id.startswith("var_") and node.id[4:] in OBJECT_VARS:
+        return node.id[4:]
+    if isinstance(node, ast.Attribute):
+        b = _path(node.value)
+        return None if b is None else b + "." + node.attr
+    if isinstance(node, ast.Subscript) and isinstance(node.slice, ast.Constant) and isinstance(node.slice.value, str):
+        b = _path(node.value)
+        return None if b is None else b + "." + node.slice.value
+    return None
 
 
 def _expr(node):
@@ -45,9 +66,21 @@ def _expr(node):
         if not node.id.startswith("var_"):
             raise Unsupported("name " + node.id)
         n = node.id[4:]
-        if n in RESERVED_VARS:
-            raise Unsupported("interpreter-owned variable $" + n)
+        if n in ("event", "config"):
+            raise Unsupported("whole interpreter-owned object $" + n)
         return {"var": n}
+    if isinstance(node, (ast.Attribute, ast.Subscript)):
+        pth = _path(node)
+        if pth is not None:
+            return {"var": pth}
+        if isinstance(node, ast.Subscript):
+            return {"idx": [_expr(node.value), _expr(node.slice)]}
+        raise Unsupported("attribute access on a plain variable")
+    if isinstance(node, ast.Call) and isinstance(node.func, ast.Name) and node.func.id == "len" and len(node.args) == 1 and not node.keywords:
+        return {"len": _expr(node.args[0])}
+    if isinstance(node, ast.Compare) and len(node.ops) == 1 and isinstance(node.ops[0], (ast.Is, ast.IsNot)) \
+            and isinstance(node.comparators[0], ast.Constant) and node.comparators[0].value is None:
+        return {"isnone": [_expr(node.left), isinstance(node.ops[0], ast.IsNot)]}
     if isinstance(node, ast.UnaryOp) and isinstance(node.op, ast.Not):
         return {"not": _expr(node.operand)}
     if isinstance(node, ast.UnaryOp) and isinstance(node.op, ast.USub) and isinstance(node.operand, ast.Constant) and type(node.operand.value) is int:
@@ -121,7 +154,7 @@ def elem_to_model(e):
         return {"t": "jump", "n": _int(e["_next"]), "abs": bool(e.get("_absolute"))}
     if t == "set":
         _only(e, ["key", "expression", "_next"])
-        if e["key"] in RESERVED_VARS:
+        if e["key"] in RESERVED_VARS or e["key"] in OBJECT_VARS:
             raise Unsupported("set of interpreter-owned variable")
         return {"t": "set", "k": e["key"], "e": expr_to_model(e["expression"]), "n": _int(e.get("_next", 1))}
     if t == "break":
@@ -137,9 +170,21 @@ def elem_to_model(e):
     if t == "flow":
         _only(e, ["flow_name", "flow_parameters", "return_vars"])
         name = e["flow_name"]
-        if "$" in name or "(" in name or e.get("flow_parameters") or e.get("return_vars"):
+        if e.get("flow_parameters") or e.get("return_vars") or "(" in name:
+            raise Unsupported("subflow call with parameters")
+        if name.startswith("$"):
+            return {"t": "flowE", "e": expr_to_model(name)}
+        if "$" in name:
             raise Unsupported("subflow call with parameters")
         return {"t": "flow", "name": name}
+    if isinstance(t, str) and t[:1].isupper() and t not in ("StartUtteranceBotAction", "UserIntent", "BotIntent", "InternalSystemActionFinished"):
+        # generic event element: matched by type and by every non-private key ("..." = wildcard)
+        props = []
+        for k, v in e.items():
+            if k.startswith("_"):
+                continue
+            props.append([k, val_to_model(v)])
+        return {"t": "event", "ty": t, "props": props}
     raise Unsupported(f"element type {t}")
 
 
@@ -147,11 +192,15 @@ DEFAULT_TRIGGERS = ["UserIntent", "BotIntent", "run_action", "InternalSystemActi
 
 
 def cfg_to_model(fc):
-    if fc.priority != 1.0:
-        raise Unsupported("priority")
-    if list(fc.trigger_event_types) != DEFAULT_TRIGGERS:
+    prio = round(fc.priority * 100)
+    if abs(prio - fc.priority * 100) > 1e-9 or prio < 0:
+        raise Unsupported("priority is not a multiple of 0.01")
+    tr_types = list(fc.trigger_event_types)
+    if tr_types[: len(DEFAULT_TRIGGERS)] != DEFAULT_TRIGGERS:
         raise Unsupported("trigger_event_types")
     return {
+        "prio": prio,
+        "triggers": tr_types[len(DEFAULT_TRIGGERS):],
         "id": fc.id,
         "elems": [elem_to_model(e) for e in fc.elements],
         "sub": bool(fc.is_subflow),
@@ -159,6 +208,38 @@ def cfg_to_model(fc):
         "intr": bool(fc.is_interruptible),
         "multi": bool(fc.allow_multiple),
     }
+
+
+def expr_vars(x, out):
+    """all variable names mentioned in a model expression / element / flow list"""
+    if isinstance(x, dict):
+        if set(x) == {"var"} and isinstance(x["var"], str):
+            out.add(x["var"])
+        for v in x.values():
+            expr_vars(v, out)
+    elif isinstance(x, list):
+        for v in x:
+            expr_vars(v, out)
+    return out
+
+
+def flatten_object(root, obj, paths):
+    """[[path, V]] for every referenced dotted path under `root` (attribute or key access on the real object);
+    a path that cannot be followed (None on the way) is simply absent = None in the model"""
+    out = []
+    for pth in sorted(paths):
+        if not pth.startswith(root + "."):
+            continue
+        cur = obj
+        ok = True
+        for part in pth.split(".")[1:]:
+            if cur is None:
+                ok = False
+                break
+            cur = cur.get(part) if isinstance(cur, dict) else getattr(cur, part, None)
+        if ok:
+            out.append([pth, val_to_model(cur)])
+    return out
 
 
 MODELLED = [
@@ -197,3 +278,122 @@ def static_tie():
     except TieBroken as e:
         problems.append(str(e))
     return problems
+
+
+# ---------------------------------------------------------------- Generated/LlmFlowsV1.lean
+
+from .util import lean_int, lean_list, lean_str, read_source, write_generated  # noqa: E402
+
+
+def lean_v(v):
+    if v is None:
+        return "V.none"
+    if isinstance(v, bool):
+        return "(V.bool true)" if v else "(V.bool false)"
+    if "i" in v:
+        return f"(V.int {lean_int(v['i'])})"
+    if "L" in v:
+        return "(V.strs " + lean_list([lean_str(x) for x in v["L"]]) + ")"
+    return f"(V.str {lean_str(v['s'])})"
+
+
+def lean_expr(e):
+    if "lit" in e:
+        return f"(Expr.lit {lean_v(e['lit'])})"
+    if "var" in e:
+        return f"(Expr.var {lean_str(e['var'])})"
+    if "not" in e:
+        return f"(Expr.not {lean_expr(e['not'])})"
+    if "len" in e:
+        return f"(Expr.len {lean_expr(e['len'])})"
+    if "idx" in e:
+        return f"(Expr.index {lean_expr(e['idx'][0])} {lean_expr(e['idx'][1])})"
+    if "isnone" in e:
+        return f"(Expr.isNone {lean_expr(e['isnone'][0])} {'true' if e['isnone'][1] else 'false'})"
+    op, a, b = e["bin"]
+    return f"(Expr.bin BinOp.{op} {lean_expr(a)} {lean_expr(b)})"
+
+
+def _opt_str(x):
+    return "none" if x is None else f"(some {lean_str(x)})"
+
+
+def _opt_int(x):
+    return "none" if x is None else f"(some {lean_int(x)})"
+
+
+def lean_elem(e):
+    t = e["t"]
+    if t == "user":
+        return f"Elem.userIntent {lean_str(e['name'])}"
+    if t == "run":
+        return f"Elem.runAction {lean_str(e['name'])} {_opt_str(e['value'])} {lean_str(e['params'])} {_opt_str(e['rk'])}"
+    if t == "if":
+        return f"Elem.ifE {lean_expr(e['c'])} {lean_int(e['ne'])}"
+    if t == "while":
+        return f"Elem.whileE {lean_expr(e['c'])} {lean_int(e['n'])} {lean_int(e['ob'])}"
+    if t == "jump":
+        return f"Elem.jump {lean_int(e['n'])} {'true' if e['abs'] else 'false'}"
+    if t == "set":
+        return f"Elem.setE {lean_str(e['k'])} {lean_expr(e['e'])} {lean_int(e['n'])}"
+    if t == "break":
+        return f"Elem.breakE {_opt_int(e['o'])}"
+    if t == "continue":
+        return f"Elem.continueE {_opt_int(e['o'])}"
+    if t == "flow":
+        return f"Elem.flow {lean_str(e['name'])}"
+    if t == "flowE":
+        return f"Elem.flowE {lean_expr(e['e'])}"
+    if t == "event":
+        return f"Elem.event {lean_str(e['ty'])} " + lean_list([f"({lean_str(k)}, {lean_v(v)})" for k, v in e["props"]])
+    raise TieBroken("cannot emit element " + t)
+
+
+def lean_cfg(c):
+    b = lambda x: "true" if x else "false"  # noqa: E731
+    return ("{ id := " + lean_str(c["id"]) + ",\n    elems := [\n      " + ",\n      ".join(lean_elem(e) for e in c["elems"]) + "],\n"
+            f"    isSubflow := {b(c['sub'])}, isExtension := {b(c['ext'])}, isInterruptible := {b(c['intr'])}, allowMultiple := {b(c['multi'])},\n"
+            f"    prio := {c['prio']}, triggers := " + lean_list([lean_str(t) for t in c["triggers"]]) + " }")
+
+
+LLM_FLOWS = "nemoguardrails/rails/llm/llm_flows.co"
+
+
+def llm_flow_configs():
+    """llm_flows.co compiled by the repo's own parser and loaded by RuntimeV1_0._load_flow_config."""
+    import contextlib
+    import io
+    import types
+
+    from nemoguardrails.colang import parse_colang_file
+    from nemoguardrails.colang.v1_0.runtime.runtime import RuntimeV1_0
+
+    src = read_source(LLM_FLOWS)
+    with contextlib.redirect_stdout(io.StringIO()):
+        r = parse_colang_file("llm_flows.co", content=src, version="1.0", include_source_mapping=False)
+    holder = types.SimpleNamespace(flow_configs={})
+    for f in r["flows"]:
+        RuntimeV1_0._load_flow_config(holder, f)
+    return holder.flow_configs
+
+
+def run():
+    """Regenerate Generated/LlmFlowsV1.lean from the working tree; anything outside the model is a broken tie."""
+    try:
+        cfgs = llm_flow_configs()
+    except Exception as e:  # noqa
+        raise TieBroken(f"llm_flows.co does not parse/load: {type(e).__name__}: {e}")
+    out = []
+    n_el = 0
+    for fid, fc in cfgs.items():
+        try:
+            mc = cfg_to_model(fc)
+        except Unsupported as e:
+            raise TieBroken(f"llm_flows.co flow `{fid}` uses a construct outside the model: {e}")
+        n_el += len(mc["elems"])
+        out.append(lean_cfg(mc))
+    body = ("import NemoVerif.Models.V1Interp\nnamespace NemoVerif.Generated.LlmFlowsV1\nopen NemoVerif.V1Interp\n\n"
+            "/-- the flows of nemoguardrails/rails/llm/llm_flows.co as compiled by the repo's parser + `_load_flow_config` -/\n"
+            "def flows : Cfgs := [\n  " + ",\n  ".join(out) + "]\n\nend NemoVerif.Generated.LlmFlowsV1\n")
+    write_generated("LlmFlowsV1", body)
+    return {"llm_flows": len(out), "llm_elements": n_el, "fingerprints": fingerprints()}
